@@ -61,7 +61,7 @@ mod verif_kani {
     #[kani::proof]
     #[kani::unwind(34)]
     #[kani::stub(zeroize::optimization_barrier, noop_barrier)]
-    fn write_exact_x25519() {
+    fn write_exact_x25519_copies() {
         let skb: [u8; 32] = kani::any();
         let pkb: [u8; 32] = kani::any();
         let sk = PrivateKey(x25519_dalek::StaticSecret::from(skb));
@@ -84,6 +84,7 @@ mod verif_kani {
         kani::assume(len <= 66 && len != 32);
         let mut out = [0u8; 66];
         pk.write_exact(&mut out[..len]);
+        kani::cover!(true, "VERIF_RETURNED");
     }
 
     /// Kani twin of the Verus contract of Deserializable::from_bytes for the X25519 keys, complete over all
